@@ -647,6 +647,16 @@ Proof.
     + reflexivity.
 Qed.
 
+(* the order of the proposer_config map is irrelevant *)
+Lemma v1_order_irrelevant : forall c ps' key fbfee fbgas,
+  wf_config1 c -> Permutation (c1_props c) ps' ->
+  proposer_config_v1 {| c1_props := ps'; c1_default := c1_default c |} key fbfee fbgas =
+  proposer_config_v1 c key fbfee fbgas.
+Proof.
+  intros c ps' key fbfee fbgas Hwf Hp. unfold proposer_config_v1. cbn [c1_props c1_default].
+  rewrite <- (aget_perm (c1_props c) ps' key Hwf Hp). reflexivity.
+Qed.
+
 (* The per-value reading of docs/execlayer.md: the code agrees with it on every lookup whose key
    has no entry or a complete entry (gas limit and builder present) ... *)
 Lemma v1_fieldwise_partial : forall c key fbfee fbgas,
